@@ -206,6 +206,23 @@ example :
     read s1.h s1.t.exons = exons := by
   decide
 
+/-- Refutation witness for seeded change C20-m5 (`decide`): with the base orientation memoised in the
+    transcript and refreshed only when `t.Loc` / `t.Orient` change (`utr5Memo`), the forward
+    transcript on a forward gene answers `UTR5 = [0, 5)`; the gene is flipped — `t.Loc` is the same
+    gene, `t.Orient` the same — and the second query still answers `[0, 5)`, while the chain as it is
+    now dictates `[40, 109)` (`utr5`, the model the driver runs): the statement of
+    `utr_layout_follows_current_orientation` is false of the memoised variant. -/
+theorem memoised_orientation_goes_stale :
+    let t : Node := ⟨1, 20, some 1⟩
+    let s0 := tcRun (tcInit 1 t [⟨10, 100, some 1⟩, ⟨12, 0, none⟩]) [.tx (.set [⟨1, 0, 15, 1⟩, ⟨1, 15, 50, 2⟩, ⟨1, 94, 15, 3⟩])]
+    let q0 := utr5Memo OriMemo.empty (s0.coding 5 40)
+    let s1 := tcRun s0 [.chain (.orient 1 (-1))]
+    let q1 := utr5Memo q0.1 (s1.coding 5 40)
+    q0.2 = .ok (0, 5) ∧ utr5 (s0.coding 5 40) = .ok (0, 5) ∧
+    q1.2 = .ok (0, 5) ∧ utr5 (s1.coding 5 40) = .ok (40, 69) ∧
+    orientProduct (s1.node :: s1.loc) = -1 := by
+  decide
+
 /-! ## Positions follow a feature that is moved between two queries -/
 
 /-- **`BasePositionOf` follows a move.**  When the `k`-th feature `x` of the chain (the feature itself,
